@@ -1,15 +1,23 @@
 import CookModel.Driver.Num
 import CookModel.Driver.Convert
+import CookModel.Driver.Scale
 import CookModel.Driver.Syntax
 import CookModel.Driver.Aisle
 import CookModel.Driver.Group
+import CookModel.Driver.StdMeta
+import CookModel.Driver.Ffi
+import CookModel.Driver.Serde
 /- Registry of line-protocol handlers. One line per area. -/
 namespace Cook.Driver
 def handlers : List (List String → Option String) := [
   handleNum,
   handleConvert,
+  handleScale,
   handleSyntax,
   handleAisle,
-  handleGroup
+  handleGroup,
+  handleStdMeta,
+  handleFfi,
+  handleSerde
 ]
 end Cook.Driver
